@@ -98,6 +98,21 @@ def history_spec(seed, tier, index):
                 r["path"] = l3.summary_qs(q, False)
             else:
                 r["path"] = l3.route_qs(q, r["kind"] == "alt")
+    cache_all = (index // 2) % 2 == 1
+    if cache_all and not euclid:
+        # a server that keeps ALL connection sets: a dozen scenarios, each asked, then the first ones asked again (a bounded or
+        # otherwise lossy cache shows when a scenario comes back after many others)
+        lines = [l[0] for l in ds.lines] or [1]
+        for k, sid in enumerate(range(5, 13)):
+            lists = [[1, 2], [], [], [], [], [], [], [], []]
+            lists[1 if (k // max(1, len(lines))) % 2 == 0 else 5] = [lines[k % len(lines)]]
+            ds.scens.append((sid, lists))
+        routes = [r for r in reqs if r.get("q") and r["kind"] in ("route", "access")]
+        if routes:
+            base = routes[0]
+            extras = [mk(base["kind"], dict(base["q"], scen=sid), base["acc"], base["egr"]) for sid in range(5, 13)]
+            again = [dict(r) for r in routes[:6]]
+            reqs = reqs + extras + again
     # invalid / failing requests in between
     for k, bad in enumerate(INVALID):
         reqs.insert((k * 5 + 2) % (len(reqs) + 1), dict(bad))
